@@ -10,7 +10,7 @@
    malloc returns an address that is not the address of a live block; unregister only of a balanced package - the call
    aborts otherwise).  This file contains only statements, `exact` proofs and Print Assumptions. *)
 From Coq Require Import ZArith List Bool.
-From ScV Require Import C10.AllocBase C10.AllocModel C10.AllocArith C10.AllocInv C10.AllocSteps C10.AllocPkg C10.AllocTop.
+From ScV Require Import C10.AllocBase C10.AllocModel C10.AllocArith C10.AllocInv C10.AllocSteps C10.AllocPkg C10.AllocTop C10.AllocLaws.
 From ScV Require Import Base.CInt Gen.AllocC10 C10.AllocGen.
 Import ListNotations.
 Local Open Scope Z_scope.
@@ -316,3 +316,21 @@ Example C10_ledger_sees_overwrite :
   restored_run [LAlloc "p"; LAlloc "q"; LFree "p"] entry_none = false /\
   restored_run [LAlloc "p"; LFree "p"; LFree "p"] entry_none = false.
 Proof. vm_compute. repeat split. Qed.
+
+(* ===== corollaries over every legal history (C10/AllocLaws.v) =================================================== *)
+(* the counter of a package is never negative, after the history and after every prefix of it *)
+Theorem C10_status_nonneg : forall junk ops p, legal junk ops = true -> pkg_ok (run junk ops) p = true ->
+  0 <= status (run junk ops) p.
+Proof. exact status_nonneg. Qed.
+Print Assumptions C10_status_nonneg.
+
+Theorem C10_status_nonneg_after_every_call : forall junk ops1 ops2 p, legal junk (ops1 ++ ops2) = true ->
+  pkg_ok (run junk ops1) p = true -> 0 <= status (run junk ops1) p.
+Proof. exact status_nonneg_always. Qed.
+Print Assumptions C10_status_nonneg_after_every_call.
+
+(* ... and it is zero EXACTLY when no block of the package is live: a non-zero sc_memory_status always names a leak *)
+Theorem C10_status_zero_iff_nothing_live : forall junk ops p, legal junk ops = true -> pkg_ok (run junk ops) p = true ->
+  (status (run junk ops) p = 0 <-> live_blocks (run junk ops) p = []).
+Proof. exact status_zero_iff. Qed.
+Print Assumptions C10_status_zero_iff_nothing_live.
